@@ -1,5 +1,7 @@
 """Shared executor harness (C01 C02 C03 C05 C08 C09): builds real openhtf trees from JSON cases, runs
 htf.Test(...).execute() in-process, canonicalises the TestRecord and the call log (DESIGN section 4)."""
+import json
+import zlib
 import logging
 import os
 import threading
@@ -309,7 +311,8 @@ class PlugsSupport(object):
           ctx.events.append('eP-%d' % idx)
           ctx.inst.append('I-:%d:%d' % (idx, self_.serial))
         if beh.get('td') == 'raise':
-          raise RuntimeError('plug %d tearDown failure' % idx)
+          # also exceptions that are not `Exception`s (sys.exit() in a tearDown, a leaked termination request)
+          raise (RuntimeError, SystemExit, KeyboardInterrupt)[idx % 3]('plug %d tearDown failure' % idx)
         if beh.get('td') == 'slow':
           # takes a little while (well inside its own timeout): another plug's hanging tearDown must not cut it short
           time.sleep(0.01)
@@ -510,7 +513,10 @@ def run_test_case(case, plugs_factory=None, callbacks=None):
     conf.load(allow_unset_measurements=bool(case.get('allow')), _override=True)
     if case.get('plugs') is not None:
       slow = any((b_ or {}).get('td') == 'slow' for b_ in case['plugs'].values())
-      conf.load(plug_teardown_timeout_s=0.4 if slow else 0.05, _override=True)
+      waits = any((b_ or {}).get('td') in ('slow', 'hang', 'stuck') for b_ in case['plugs'].values())
+      if waits or zlib.crc32(json.dumps(case['plugs'], sort_keys=True).encode()) % 2:
+        conf.load(plug_teardown_timeout_s=0.4 if slow else 0.05, _override=True)
+      # else: the default, no tearDown time-out (no tearDown of this case hangs)
     box = {}
 
     def _go():
